@@ -63,6 +63,8 @@ def run_mutant(m):
         fired = []
         outs = []
         props = sorted({p for (p, k) in m["expects"]}) or m.get("props") or ["C%02d" % i for i in range(1, 21)]
+        if len(props) > 3:
+            props = ["ALL"]      # one process, one load of the facts
         for prop in props:
             r = subprocess.run([os.path.join(VERIF, "check"), prop], env=env, stdout=subprocess.PIPE, stderr=subprocess.STDOUT, text=True)
             outs.append(r.stdout)
